@@ -65,7 +65,7 @@ func (p *c17) Init(tier string) {
 		n = 4
 	}
 	p.idents = allStrings([]string{"a", "b", " ", "'", "[", "]", ".", "0", "é"}, n)
-	p.lits = allStrings([]string{"a", " ", "\"", "'", "`", "\\", "[", "]", "ë"}, n)
+	p.lits = allStrings([]string{"a", " ", "\"", "'", "`", "\\", "[", "]", "ë", "\xe9"}, n)
 	// array expressions: all nestings of depth <= 3 with <= 3 (thorough 4) elements per level (bounded)
 	elems := []string{"1", "'x'", "a", "'[y]'", "'é'"}
 	var gen func(depth int) []string
@@ -297,7 +297,21 @@ func (p *c17) RunCase(i int) *core.CaseResult {
 		}
 		// second spelling of the same literal: backslash escapes instead of doubled quotes
 		sql2 := "SELECT '" + strings.NewReplacer("\\", "\\\\", "'", "\\'").Replace(lit) + "' AS v, id FROM t WHERE id = 0"
-		for _, q := range []string{sql, sql2} {
+		// third spelling: every character behind a backslash of its own (in the MySQL dialect a backslash
+		// before a character that needs no escaping stands for that character); checked first without
+		// options (if the parser reads it differently the spelling is not used)
+		var esc strings.Builder
+		for _, ch := range lit {
+			esc.WriteByte('\\')
+			esc.WriteRune(ch)
+		}
+		sql3 := "SELECT '" + esc.String() + "' AS v, id FROM t WHERE id = 0"
+		spellings := []string{sql, sql2}
+		if outcome(gq.Run(c17Doc(), sql3)) == want {
+			spellings = append(spellings, sql3)
+		}
+		r.Execs++
+		for _, q := range spellings {
 			for m := 1; m < 4; m++ { // pg, idiomatic, both
 				o := gq.Run(c17Doc(), q, combos[m]...)
 				r.Execs++
